@@ -79,6 +79,10 @@ def render(ids, crlf=False, style=None, junk=None):
                         (b'\n' if crlf else b'\r\n')) *
                        (1 + (st >> 5) % 3 if st & 0xe0 != 0xe0 else 1200))
 
+            if st & 2 and st & 64:
+                # a line of spaces / tabs only is a blank line too
+                out.append([b'    ', b'\t', b' \t '][(st >> 3) % 3] + nl)
+
         if st & 2:
             extra = b', x-pad=' + b'p' * [40, 200, 9000][(st >> 6) % 3]
 
